@@ -260,6 +260,12 @@ func (enc *Encoder) Literal(size int64, sync *ContinuationRequest) io.WriteClose
 		panic("imapwire: sync must be nil on a server-side Encoder.Literal")
 	}
 
+	if enc.err != nil {
+		// Nothing more can be written, e.g. because the server has refused
+		// a previous literal of the same command
+		return errorWriter{enc.err}
+	}
+
 	// TODO: literal8
 	enc.writeString("{")
 	enc.Number64(size)
